@@ -250,10 +250,46 @@ def main(tier=None):
                 ck.violation(('leak', 'close/abort with pending requests', ','.join(x for x in ('malloc', 'types', 'comms', 'infos', 'files', 'reqs') if L.get(x) != '0')), c.text(),
                              '%s: rank %d: %s open=%s' % (c.name, k, {x: L.get(x) for x in ('malloc', 'types', 'comms', 'infos', 'files', 'reqs')}, r.r(k, nfo).get('n'))); break
     ck.cov['pending_at_exit_cases'] = len(pend)
+    # ---- opens that fail inside the driver (valid signature, header broken further down) release everything they took
+    import checks.c04 as c04, checks.c20 as c20
+    from engine import cdf
+    fails = []
+    for ver in (1, 5):
+        for kind in ('fixed', 'record2'):
+            f = c04.mkfile_schema(ver, kind); cdf.layout(f); data = c04.gen_data(f); raw = cdf.encode(f, data)
+            bad = [(lab, b_) for lab, b_ in c20.invalid_edits(f, data, raw) if b_ is not None and lab != 'bad-version-byte']
+            bad += [('truncated-%d' % n, raw[:n]) for n in (8, 40, len(raw) // 3)]
+            for lab, b_ in bad:
+                for np_ in (1, 2):
+                    c = Case('C17-openfail-v%d-%s-%s-np%d' % (ver, kind, lab, np_), np_)
+                    c.op(0, 'mkfile', path='bad.nc', hex=b_.hex()); c.op('*', 'barrier')
+                    c.op('*', 'create', f=0, path='good.nc', fmt=1)          # another file is open meanwhile and must stay usable
+                    lo = [c.op('*', 'open', f=1, path='bad.nc', write=w, hints=h) for w, h in ((0, None), (1, 'nc_var_align_size=8'), (0, 'romio_no_indep_rw=true'))]
+                    lg = c.op('*', 'def_dim', f=0, name='x', len=2)
+                    lc = c.op('*', 'close', f=0)
+                    led = c.op('*', 'ledger'); nfo = c.op('*', 'inq_files_opened')
+                    fails.append((c, lo, lg, lc, led, nfo))
+    fres = runner.run_cases(b['vx'], [x[0] for x in fails], batch=30)
+    for (c, lo, lg, lc, led, nfo), r in zip(fails, fres):
+        ck.cov['evaluations'] += 1; trans += 1
+        if r.status != 'ok':
+            from engine.script import first_frame
+            ck.violation((r.status, 'failing open', first_frame(r.detail)), c.text(), c.name + ': ' + r.detail[:500]); continue
+        for k in r.ranks:
+            rcs = [r.rc(k, ln) for ln in lo]
+            ck.outcomes.add(('openfail', tuple(x != 0 for x in rcs)))
+            if any(x == 0 for x in rcs): break       # accepted after all: C19 / C20 judge acceptance, nothing to account for here
+            if r.rc(k, lg) != 0 or r.rc(k, lc) != 0:
+                ck.violation(('rc', 'other file', 'after a failing open'), c.text(), '%s: rank %d: the file that was open meanwhile returns %d / %d' % (c.name, k, r.rc(k, lg), r.rc(k, lc))); break
+            L = r.r(k, led)
+            if any(L.get(x) != '0' for x in ('malloc', 'types', 'comms', 'infos', 'files', 'reqs')) or r.r(k, nfo).get('n') != '0':
+                ck.violation(('leak', 'failing open', ','.join(x for x in ('malloc', 'types', 'comms', 'infos', 'files', 'reqs') if L.get(x) != '0')), c.text(),
+                             '%s: rank %d: after three failing opens and closing the other file: %s open=%s' % (c.name, k, {x: L.get(x) for x in ('malloc', 'types', 'comms', 'infos', 'files', 'reqs')}, r.r(k, nfo).get('n'))); break
+    ck.cov['failing_open_cases'] = len(fails)
     ck.cov.update(states=states, transitions=trans, traces_validated_against_impl=trans, max_depth=maxd, completed_depth=completed, distinct_nontrivial=states,
                   rule='BFS over {create/open of 3 paths (+ non-netCDF file, missing file, NC_NOCLOBBER), 10 per-file ops incl. close/abort on every id ever returned and on -1, 1023, 1024, 10^6}; '
                        'state = (open id table with per-file reference model, files on disk); after every transition each open file is swept against its own model, all files are closed and the '
-                       'malloc/MPI-object ledger must be zero; plus the NC_MAX_NFILES boundary case; plus every way of leaving a file (close, abort, abort after redef, from independent mode, close / abort of a new file still in its first define mode) with iput / iget / bput / iput_varn / converting requests still pending on 1-3 processes: NC_EPENDING, id invalid afterwards, ledger zero')
+                       'malloc/MPI-object ledger must be zero; plus the NC_MAX_NFILES boundary case; plus every way of leaving a file (close, abort, abort after redef, from independent mode, close / abort of a new file still in its first define mode) with iput / iget / bput / iput_varn / converting requests still pending on 1-3 processes: NC_EPENDING, id invalid afterwards, ledger zero; plus opens of files with a valid signature and a header broken further down (9 grammar violations, 3 truncations, 2 formats) while another file is open: the other file stays usable and the ledger returns to zero')
     ck.assumptions += ['depth bound %d, np=1' % maxdepth]
     runner.cleanup()
     return ck.finish(min_eval=200, min_outcomes=15)
